@@ -57,6 +57,8 @@ pub static PROGRESS: AtomicU64 = AtomicU64::new(0);
 /// (e.g. a loop that never sees the end): it is reported like a hang.
 pub static CASE_LINES: AtomicU64 = AtomicU64::new(0);
 pub const LINE_LIMIT: u64 = 50_000;
+/// the limit of the current case: `LINE_LIMIT` plus a few lines per source element (large sources write long traces)
+pub static CASE_LIMIT: AtomicU64 = AtomicU64::new(LINE_LIMIT);
 pub static CLONES: AtomicU64 = AtomicU64::new(0);
 pub static CLONEPANIC: AtomicU64 = AtomicU64::new(u64::MAX);
 /// logged destructions of (non-clone) elements so far in this case, and the one that panics
@@ -95,7 +97,7 @@ pub fn write_raw(s: &str) {
     }
     drop(g);
     PROGRESS.fetch_add(1, Ordering::Relaxed);
-    if CASE_LINES.fetch_add(1, Ordering::Relaxed) == LINE_LIMIT {
+    if CASE_LINES.fetch_add(1, Ordering::Relaxed) == CASE_LIMIT.load(Ordering::Relaxed) {
         runaway();
     }
 }
@@ -199,7 +201,7 @@ pub fn finish(t: usize) {
 // ---------------------------------------------------------------------------------------------
 // scheduler side
 
-pub fn begin_case(nthreads: usize, iter_kind: bool, clonepanic: Option<u64>, droppanic: Option<u64>) {
+pub fn begin_case(nthreads: usize, iter_kind: bool, clonepanic: Option<u64>, droppanic: Option<u64>, src_len: u64) {
     {
         let mut g = core();
         g.turn = SCHED;
@@ -218,6 +220,7 @@ pub fn begin_case(nthreads: usize, iter_kind: bool, clonepanic: Option<u64>, dro
     DROPPANIC.store(droppanic.unwrap_or(u64::MAX), Ordering::Relaxed);
     crate::alloc::reset();
     CASE_LINES.store(0, Ordering::Relaxed);
+    CASE_LIMIT.store(LINE_LIMIT.saturating_add(src_len.saturating_mul(8)), Ordering::Relaxed);
     ACTIVE.store(true, Ordering::SeqCst);
     LOG_ON.store(true, Ordering::SeqCst);
 }
